@@ -449,6 +449,14 @@ impl OcflStore for FsOcflStore {
             )));
         }
 
+        if !inventory.continues_history_of(&existing_inventory) {
+            // The object was replaced, e.g. purged and created again, after the version was staged
+            return Err(RocflError::IllegalState(format!(
+                "Cannot create version {} in object {} because the object's history has changed since the version was staged",
+                version_str, inventory.id
+            )));
+        }
+
         Self::ensure_within_storage_root(&inventory.id, &existing_inventory.object_root)?;
 
         let object_root = self.storage_root.join(&existing_inventory.object_root);
